@@ -1000,6 +1000,13 @@ class Interp:
             return v2, count, Num(Frac.atom(v2)), elem
         if isinstance(it, SeqV):
             return it.var, it.count, None, it.elem if it.filt is None else None
+        if isinstance(it, Obj) and it.kind == "reversed":
+            inner = self.iter_domain(it.data, st, node)
+            if inner is None or inner[3] is None or inner[2] is not None:
+                return None
+            v2, count, _, elem = inner
+            # position o of the reversed sequence is position count-1-o of the sequence
+            return var, count, None, subst_val(elem, {v2: count - ONE - o})
         if isinstance(it, Obj) and it.kind == "zip":
             da, db = self.iter_domain(it.data[0], st, node), self.iter_domain(it.data[1], st, node)
             if da is None or db is None or da[3] is None or db[3] is None:
